@@ -258,6 +258,24 @@ def run_known_replays(prop_id, mod):
     return out
 
 
+def run_regressions(prop_id, mod, matcher):
+    d = os.path.join(env.VERIF_DIR, "regressions", prop_id)
+    out = {"files": [], "failures": []}
+    if not os.path.isdir(d):
+        return out
+    for name in sorted(os.listdir(d)):
+        if not name.endswith(".json"):
+            continue
+        with open(os.path.join(d, name)) as f:
+            rep = json.load(f)
+        out["files"].append(name)
+        for c in rep["cases"] if "cases" in rep else [rep["case"]]:
+            for fp, obs in replay_failures(mod, c):
+                if matcher.match(fp, c, obs) is None:
+                    out["failures"].append((fp, c, obs))
+    return out
+
+
 def run_property(prop_id, tier, seed=None, replay=None):
     t0 = time.time()
     env.setup_paths()
@@ -353,10 +371,17 @@ def run_property(prop_id, tier, seed=None, replay=None):
         for fp, lst in r["failures"].items():
             failures.setdefault(fp, []).extend(tuple(x) for x in lst)
     budget_exhausted = hard_timeout or any(r["budget_exhausted"] for r in results)
+    matcher = KnownMatcher(prop_id, mod)
+
+    # saved regression inputs (shrunk cases of defects that were repaired): re-executed on every run without a generator
+    regress = run_regressions(prop_id, mod, matcher)
+    counters["regression_inputs"] = len(regress["files"])
+    for fp, case, obs in regress["failures"]:
+        fail_counts[fp] += 1
+        failures.setdefault(fp, []).append((len(canon(case)), jsonable(case), jsonable(obs)))
 
     # shrink + replay files
     violations = []
-    matcher = KnownMatcher(prop_id, mod)
     shrink_deadline = time.time() + (60 if tier == "quick" else 600)
     for fp in sorted(failures):
         lst = sorted(failures[fp], key=lambda x: (x[0], canon(x[1])))
